@@ -86,7 +86,7 @@ class UE:
     def __init__(s): s.state='new'; s.ulcount=None; s.dlcount=0
 class AMF:
     def __init__(s, cfg, R):
-        s.cfg=cfg; s.R=R; s.ues={}; s.next_amf_id=R.randrange(0,1<<40); s.log=[]; s.setup=False; s.by_ran={}; s.findings=[]
+        s.cfg=cfg; s.R=R; s.ues={}; s.next_amf_id=cfg['first_amf_id'] if cfg.get('first_amf_id') is not None else R.randrange(0,1<<40); s.log=[]; s.setup=False; s.by_ran={}; s.findings=[]
     def soft(s,c,msg):
         if not c:
             if s.cfg.get('strict',True): raise Reject(msg)
